@@ -242,8 +242,27 @@ def resolve : List String → List Tok → List Tok
     | [] => .stop n :: resolve [] ts
   | st, t :: ts => t :: resolve st ts
 
+/-! attribute order carries no meaning in XML: both sides of the correspondence sort the
+attributes before comparing, so a rewrite that emits them in another order is not an alarm
+(the theorems about order are about the model, the tie is modulo order) -/
+
+def attrKey (a : Attr) : String := a.name.space ++ "\x00" ++ a.name.loc ++ "\x00" ++ a.value
+
+def insertAttr (a : Attr) : List Attr → List Attr
+  | [] => [a]
+  | b :: bs => if attrKey a < attrKey b then a :: b :: bs else b :: insertAttr a bs
+
+def sortAttrs : List Attr → List Attr
+  | [] => []
+  | a :: as => insertAttr a (sortAttrs as)
+
+def normAttrs (ts : List Tok) : List Tok :=
+  ts.map fun
+    | .start n as => .start n (sortAttrs as)
+    | t => t
+
 /-- canonical form of a token list as the peer's decoder reports it when the tokens were
 printed at the top level of a stream with default namespace `ns` -/
-def canon (ns : String) (ts : List Tok) : List Tok := resolve [ns] (mergeChars ts)
+def canon (ns : String) (ts : List Tok) : List Tok := normAttrs (resolve [ns] (mergeChars ts))
 
 end XmppModel.Encoder
